@@ -39,7 +39,8 @@ Inductive wexpr :=
 Inductive dest :=
 | DNone                            (* f(args);                  (expression statement) *)
 | DDecl                            (* int x = f(args);          x becomes the next int local *)
-| DAssign (i : nat).               (* xi = f(args); *)
+| DAssign (i : nat)                (* xi = f(args); *)
+| DAssignG (g : nat).              (* g = f(args);  for an int global *)
 Inductive stmt :=
 | SDeclI (o : iopd)               (* int x = o;   x becomes the next int local *)
 | SAssignI (i : nat) (o : iopd)   (* xi = o;  (xi op= e is xi = xi op e) *)
@@ -58,6 +59,8 @@ Inductive stmt :=
 | SAssignDiv (i : nat) (op : src_arith) (a b : iopd) (* xi = a / b;  xi /= b is xi = xi / b *)
 | SCall (d : dest) (f : nat) (args : list iopd)      (* a call of the f-th function of the program *)
 | SReturn (r : option iopd)                          (* return;  return o; *)
+| SAssignG (g : nat) (o : iopd)                      (* g = o;  g op= e is g = g op e;  g an int global *)
+| SAssignGDiv (g : nat) (op : src_arith) (a b : iopd) (* g = a / b; *)
 with stmts := SNil | SCons (s : stmt) (ss : stmts).
 
 (* ---------- self.local_vars / self.stack for the fragment ---------- *)
@@ -152,6 +155,15 @@ Fixpoint push_args (S : senv) (args : list iopd) : list aline :=
   | [] => []
   | o :: r => decl_int S o ++ push_args (after_ra S) r
   end.
+(* Assignment to an int global: dest = the global's own word (access.immed), so
+   get_expr_value(dest, e) computes INTO the global; State.set emits `mov` unless the value is
+   already there *)
+Definition assign_glob (S : senv) (g : nat) (o : iopd) : list aline :=
+  let (c0, bub) := eval_opd (env_of S) (top S) (RGlob g) o false in
+  let (c1, v) := pop_value (RGlob g) bub in
+  c0 ++ c1 ++ (if is_state_of (RGlob g) v then [] else [AInstr (AMov (RGlob g) v)]).
+Definition assign_glob_div (S : senv) (g : nat) (op : src_arith) (a b : iopd) (da : label) : list aline :=
+  fst (eval_div (env_of S) (top S) (RGlob g) op a b false da).
 Definition func_label (f : nat) : label := (LFunc f, 0%nat).
 Definition call_seq (S : senv) (ec : label) (f : nat) : list aline :=
   [AInstr (AArith Aadd RFp (SReg RFp) (SLit (- top S))); AInstr (AJump (SLab (func_label f))); AInstr AHaltI;
@@ -161,6 +173,7 @@ Definition lower_call (S : senv) (ec : label) (d : dest) (f : nat) (args : list 
   match d with
   | DAssign i => [AInstr (ALwso R1 (SReg RFp) (SLit (- (top S + ws S))));
                   AInstr (ASwso (SReg RFp) (SLit (- nth i (ioffs S) 0)) (SReg R1))]
+  | DAssignG g => [AInstr (ALwso (RGlob g) (SReg RFp) (SLit (- (top S + ws S))))]
   | _ => []
   end.
 (* ReturnStatement: retval = get_expr_value(r0, e); ra = return_address.get(r1); the value goes to
@@ -219,6 +232,8 @@ Fixpoint lower_stmt (S : senv) (li : option (label * label)) (s : stmt) (st : ls
       let (ec, st1) := add_label LEndCall st in
       (lower_call S ec d f args, match d with DDecl => push_int S | _ => S end, st1, false)
   | SReturn r => (lower_return S r, S, st, true)
+  | SAssignG g o => (assign_glob S g o, S, st, false)
+  | SAssignGDiv g op a b => let (da, st1) := add_label LDivAllowed st in (assign_glob_div S g op a b da, S, st1, false)
   end
 with lower_stmts (S : senv) (li : option (label * label)) (ss : stmts) (st : lstate)
   : list aline * senv * lstate * bool :=
@@ -279,6 +294,8 @@ Fixpoint need_stmt (S : senv) (s : stmt) : Z * senv :=
   | SCall d _ args => (zmax (top S + ws S) (need_args (after_ra S) args), match d with DDecl => push_int S | _ => S end)
   | SReturn (Some o) => (need_int S o false, S)
   | SReturn None => (top S, S)
+  | SAssignG _ o => (need_int S o false, S)
+  | SAssignGDiv _ op a b => (need_int S (OArith op a b) false, S)
   end
 with need_stmts (S : senv) (ss : stmts) : Z :=
   match ss with
@@ -376,3 +393,54 @@ Definition print_dline (d : dline) : string :=
   | DArg n => ".arg " ++ n ++ " word"
   end.
 Close Scope string_scope.
+
+(* ---------- global variables ---------- *)
+(* lookup_var / make_global: a non-const global gets its word in the state section, after
+   stack_end, when it is first looked up while code is generated; `globals_order` is that order.
+   (const globals with a literal initialiser are immediates: the correspondence folds them.) *)
+Fixpoint grefs_opd (o : iopd) : list nat :=
+  match o with
+  | OGlob g => [g]
+  | OArith _ x y => grefs_opd x ++ grefs_opd y
+  | OUn _ x => grefs_opd x
+  | _ => []
+  end.
+Fixpoint grefs_b (e : bexpr) : list nat :=
+  match e with
+  | BCmp _ a b => grefs_opd a ++ grefs_opd b
+  | BNot e1 => grefs_b e1
+  | BAnd e1 e2 | BOr e1 e2 => grefs_b e1 ++ grefs_b e2
+  | _ => []
+  end.
+Fixpoint grefs_stmt (s : stmt) : list nat :=
+  match s with
+  | SDeclI o | SAssignI _ o | SWriteI _ o | SWrite (WrByte o) | SReturn (Some o) => grefs_opd o
+  | SDeclB e | SAssignB _ e | SWriteB _ e => grefs_b e
+  | SIf c s1 s2 => grefs_b c ++ grefs_stmts s1 ++ grefs_stmts s2
+  | SWhile c b k => grefs_b c ++ grefs_stmts b ++ grefs_stmts k
+  | SBlock ss => grefs_stmts ss
+  | SDeclDiv _ a b | SAssignDiv _ _ a b => grefs_opd a ++ grefs_opd b
+  | SCall d _ args => match d with DAssignG g => [g] | _ => [] end ++ flat_map grefs_opd args
+  | SAssignG g o => g :: grefs_opd o                      (* the target is looked up first *)
+  | SAssignGDiv g _ a b => g :: grefs_opd a ++ grefs_opd b
+  | _ => []
+  end
+with grefs_stmts (ss : stmts) : list nat :=
+  match ss with
+  | SNil => []
+  | SCons s r => grefs_stmt s ++ (if exits s then [] else grefs_stmts r)
+  end.
+Definition globals_order (funs : list fundef) : list nat :=
+  add_new [] (flat_map (fun f => match nth_error funs f with Some fd => grefs_stmts (fn_body fd) | None => [] end)
+                       (program_order funs)).
+(* the state section with the globals: ginit g = the initial value of global g *)
+Open Scope string_scope.
+Definition state_section_g (stack_size : Z) (nparams : nat) (funs : list fundef) (ginit : nat -> Z) : list dline :=
+  state_section stack_size nparams
+  ++ flat_map (fun g => [DLab (reg_str (RGlob g)); DWordSym "" (dec (ginit g))]) (globals_order funs).
+Close Scope string_scope.
+(* where hidc's layout puts global g: the words after stack_end, in that order *)
+Fixpoint index_of (g : nat) (l : list nat) : nat :=
+  match l with [] => O | x :: r => if Nat.eqb x g then O else S (index_of g r) end.
+Definition glob_addr (w stack_size : Z) (nparams : nat) (funs : list fundef) (g : nat) : Z :=
+  (stack_size + Z.of_nat nparams + 6) * w + Z.of_nat (index_of g (globals_order funs)) * w.
